@@ -2,6 +2,7 @@ package sim
 
 import (
 	"database/sql"
+	"flag"
 	"fmt"
 	"strings"
 	"sync"
@@ -178,6 +179,13 @@ func bootAT(seed uint64, tape *simkit.Tape, cfg ATCfg, ncfg simnet.Config) *ATWo
 		CompressConfig: undo.CompressConfig{Enable: cfg.Compress != "None" && cfg.Compress != "", Type: cfg.Compress, Threshold: "1k"}}
 	ssql.InitAT(ucfg, ssql.AsyncWorkerConfig{BufferLimit: cfg.BufferLimit, BufferCleanInterval: time.Duration(cfg.CleanMs) * time.Millisecond,
 		ReceiveChanSize: cfg.RecvChan, CommitWorkerCount: cfg.Workers, CommitWorkerBufferSize: cfg.WorkerBuf})
+	{
+		var xcfg ssql.XAConfig
+		fs := flag.NewFlagSet("xa", flag.ContinueOnError)
+		xcfg.RegisterFlagsWithPrefix("xa", fs)
+		fs.Parse(nil)
+		ssql.InitXA(xcfg)
+	}
 	datasource.Init()
 	srv := simdb.NewServer("simdb1", cfg.ServerVersion)
 	srv.LockWaitTimeout = 5 * time.Second
